@@ -320,7 +320,7 @@ LIB_SUFFIXES = {'none': {}, 'percent': construct_suffixes(DEFAULT_SUFFIXES, metr
 
 def strat_trees(tier):
     sfx = st.sampled_from(['none', 'percent', 'metric', 'metric'])
-    return sfx.flatmap(lambda sname: st.fixed_dictionaries({
+    return sfx.flatmap(lambda sname: X.fixed_dict({
         'suffix': st.just(sname),
         'tree': X.trees(suffixes=SUFFIX_SETS[sname] or None, max_leaves=12),
         'env': X.env_values(),
@@ -533,7 +533,7 @@ MUTS = ['tab-in-token', 'double-op', 'juxtapose', 'empty-paren', 'empty-array', 
 
 
 def strat_invalid(tier):
-    return st.fixed_dictionaries({
+    return X.fixed_dict({
         'tree': X.trees(suffixes=None, max_leaves=8),
         'style': X.styles(),
         'mut': st.sampled_from(MUTS),
@@ -657,7 +657,15 @@ NOT_NUMBERS = ['1_0', '1_000.5', '1e1_0', '0x10', '0b1', '0o7', '1__0', '١٢', 
 NOT_NUMBER_WORDS = ['nan', 'NaN', 'inf', 'Inf', 'INF', 'infinity', 'Infinity', '-inf', '+inf', 'infty', '-Infinity', 'NAN']
 
 
+# names resolve to the SUPPLIED variables, constants and functions: a table the caller supplies explicitly - even an empty
+# one - is the whole scope (the library's defaults are what is used when a table is not supplied at all)
+DEFAULT_NAME_USES = [('pi', 'v'), ('2*pi', 'v'), ('e', 'v'), ('i*i', 'v'), ('j', 'v'), ('sin(0)+1', 'f'), ('sqrt(4)', 'f'),
+                     ('exp(0)', 'f'), ('abs(-1)', 'f'), ('50%', 's'), ('2%+1', 's')]
+
+
 def items_not_numbers(tier):
+    for s, which in DEFAULT_NAME_USES:
+        yield {'s': s, 'empty': which}
     for s in NOT_NUMBERS:
         for allow_inf in (False, True):
             yield {'s': s, 'word': False, 'allow_inf': allow_inf}
@@ -668,6 +676,28 @@ def items_not_numbers(tier):
 
 def judge_not_number(spec, rec):
     s = spec['s']
+    if 'empty' in spec:
+        from mitxgraders.helpers.calc import DEFAULT_VARIABLES, DEFAULT_FUNCTIONS
+        tables = {'v': ({}, dict(DEFAULT_FUNCTIONS), dict(DEFAULT_SUFFIXES)),
+                  'f': (dict(DEFAULT_VARIABLES, x=1.0), {}, dict(DEFAULT_SUFFIXES)),
+                  's': (dict(DEFAULT_VARIABLES), dict(DEFAULT_FUNCTIONS), {})}[spec['empty']]
+        kind, out = call(evaluator, s, *tables)
+        rec.calls()
+        rec.cls('empty-supplied-table/' + spec['empty'])
+        rec.nontrivial()
+        if kind == 'ok':
+            raise Violation('scope/default-resolved-although-an-empty-table-was-supplied', '%r evaluated to %r although the '
+                            'caller supplied an empty table of %s' % (s, out[0], {'v': 'variables', 'f': 'functions',
+                                                                               's': 'suffixes'}[spec['empty']]), string=s)
+        if not isinstance(out, (UndefinedVariable, UndefinedFunction)):
+            if isinstance(out, MITxError):
+                raise Violation('scope/wrong-error', '%r with an empty table raised %s: %s' % (s, type(out).__name__, out))
+            raise out
+        # control: with the tables not supplied at all the library's defaults apply
+        kind2, out2 = call(evaluator, s)
+        if kind2 != 'ok':
+            raise Violation('scope/defaults-missing', '%r with no tables supplied raised %s' % (s, out2), string=s)
+        return {'string': s, 'error': type(out).__name__}
     kind, out = call(evaluator, s, {}, {}, {}, allow_inf=spec['allow_inf'])
     rec.calls()
     if kind == 'ok':
@@ -692,7 +722,7 @@ def judge_not_number(spec, rec):
 
 
 def strat_case(tier):
-    return st.fixed_dictionaries({
+    return X.fixed_dict({
         'tree': X.trees(var_names=['x', 'theta', 'kT', 'a_b', 'm_e', 'Q^{-1}'], suffixes=None, max_leaves=8,
                         consts=True),
         'which': st.integers(0, 50), 'how': st.sampled_from(['upper', 'lower', 'swap']),
@@ -753,7 +783,7 @@ def judge_case(spec, rec):
 
 
 def strat_verdict(tier):
-    return st.fixed_dictionaries({
+    return X.fixed_dict({
         'tree': X.trees(var_names=[], suffixes=None, max_leaves=8, consts=True,
                         func_names=['sin', 'cos', 'exp', 'sqrt', 'abs', 'cosh', 'min', 'max']),
         'styles': st.lists(X.styles(), min_size=2, max_size=2),
@@ -808,4 +838,7 @@ PARTS = [
     Part('invalid', 'hyp', judge_invalid, strategy=strat_invalid, budget={'quick': 3000, 'thorough': 60000}),
     Part('case', 'hyp', judge_case, strategy=strat_case, budget={'quick': 1200, 'thorough': 20000}),
     Part('verdict', 'hyp', judge_verdict, strategy=strat_verdict, budget={'quick': 800, 'thorough': 15000}),
+    # coverage-guided (atheris/libFuzzer over the same strategies and oracles; thorough tier only, vlib/fuzzworker.py)
+    Part('trees-fuzz', 'fuzz', judge_tree, strategy=strat_trees, budget={'quick': 0, 'thorough': 160000}),
+    Part('invalid-fuzz', 'fuzz', judge_invalid, strategy=strat_invalid, budget={'quick': 0, 'thorough': 160000}),
 ]
